@@ -5,7 +5,7 @@
    stages.rs.  The remaining rules are decided by the exhaustive single- and double-fault search
    (evidence: tested, not proved). *)
 From Coq Require Import List NArith ZArith Bool String Permutation.
-From Verif Require Import Model.Analyzer Gen.GenStages Proofs.AnalyzerProofs.
+From Verif Require Import Model.Analyzer Gen.GenStages Proofs.AnalyzerProofs Base.Text Model.Scope Proofs.ScopeProofs.
 Import ListNotations.
 
 (* P0003 / P0005: the scan reports nothing exactly when the names are pairwise distinct, and the verdict
@@ -37,6 +37,24 @@ Theorem C02_gen_stages :
                  "rule_var_decl_const_initialized"; "rule_var_decl_const_not_fb";
                  "rule_var_decl_global_const_requires_external_const"]%string.
 Proof. split; reflexivity. Qed.
+
+(* rule_use_declared_symbolic_var (P0015), as the walk over the scope events of a library of units: the library is
+   accepted exactly when every unit is in order, and a unit is in order exactly when every name it uses is its own name
+   or is declared in the unit before the use (identifiers compared without regard to letter case). *)
+Theorem C02_declared_variables_exact : forall ps,
+  rule_symbolic (events_of ps) = None <-> forallb pou_ok ps = true.
+Proof. exact rule_symbolic_exact. Qed.
+
+Theorem C02_unit_in_order : forall items known,
+  first_bad known items = None <->
+  (forall pre n pos post, items = pre ++ IUse n pos :: post -> declared_before n known pre).
+Proof. exact first_bad_spec. Qed.
+
+(* when exactly one unit is at fault, the name and the place reported are that unit's first undeclared use *)
+Theorem C02_declared_variables_reported : forall ps p b,
+  In p ps -> pou_bad p = Some b -> (forall q, In q ps -> pou_bad q = None \/ pou_bad q = Some b) ->
+  rule_symbolic (events_of ps) = Some b.
+Proof. exact single_fault_reported. Qed.
 
 Example C02_example :
   rule_unique [1; 2; 3]%N = [] /\ rule_unique [1; 2; 1]%N = [1%N] /\
